@@ -17,17 +17,16 @@ from harness import coqfmt as cf
 PROP = "C19"
 COQ = dict(imports=["Model.Loader", "Spec.C19"], in_ty="input", out_ty="res obs",
            corr="corr_C19", decide="check_C19", inclass="inclass_C19", model="load_revisions")
-THEOREMS = ["C19_check_sound", "C19_main_partial", "C19_main_inclass", "C19_exactly_once", "C19_nothing_else",
-            "C19_no_error_partial", "C19_no_error_refuted", "C19_source_wins", "C19_dedupe", "C19_duplicate_id",
-            "C19_split_clean", "C19_rev_file_names"]
+THEOREMS = ["C19_check_sound", "C19_main", "C19_main_inclass", "C19_exactly_once", "C19_nothing_else",
+            "C19_no_error", "C19_source_wins", "C19_dedupe", "C19_duplicate_id", "C19_split_clean", "C19_rev_file_names"]
 TRUSTED = [
     "file-system semantics assumed by the model (Model/Loader.v): os.walk(top, topdown=True) without followlinks visits "
     "top and every real sub-directory, lists links to directories under dirs and everything else under files; "
     "os.listdir returns every entry; os.path.exists follows links; os.path.realpath replaces a link by its target "
     "(trees use one-hop absolute links); basename/dirname/join/abspath are purely lexical",
     "importlib semantics assumed by the model: a *.py file is executed from source (a stale __pycache__ entry with a "
-    "different source hash is ignored), a *.pyc file is executed by SourcelessFileLoader without a source, no loader "
-    "accepts the suffix .pyo (spec_from_file_location returns None), os.path.splitext loses an extension preceded only "
+    "different source hash is ignored), a *.pyc / *.pyo file is executed by SourcelessFileLoader without a source, "
+    "os.path.splitext loses an extension preceded only "
     "by dots",
     "Python re semantics of _sourceless_rev_file, _only_source_rev_file and _split_on_space_comma on strings without "
     "newline (file names) resp. as modelled by split_legacy; str.split / str.strip white space = ASCII+Latin-1 set",
@@ -43,11 +42,9 @@ ASSUME = [
     "of dots followed by py/pyc/pyo",
     "clean_config (needed by the correspondence, not by the theorems): every version_locations item is a relative path that "
     "stays inside the tree and is not a package resource, a non-recursive location is not named ...__pycache__",
-    "sourceless only: no_live_pyo (no .pyo without .py/.pyc next to it) — the complement is the open finding C19-pyo-assert",
 ]
 RULE = ("quick: (a) EXHAUSTIVE: every subset of 8 entries {a.py,a.pyc,a.pyo,__pycache__/a.cpython-312.pyc,a.txt,__init__.py,"
-        ".#a.py,sub/b.py} in sd/versions x sourceless x recursive (subsets in a finding class are skipped unless the finding "
-        "is recorded in known_findings.json); (b) EXHAUSTIVE: 47 version_locations strings (relative and absolute, directory names containing ':') x 7 version_path_separator values "
+        ".#a.py,sub/b.py} in sd/versions x sourceless x recursive; (b) EXHAUSTIVE: 47 version_locations strings (relative and absolute, directory names containing ':') x 7 version_path_separator values "
         "on a fixed 3-location tree; (c) seeded random trees (2500 quick / 40000 thorough; 1-3 locations, nested, "
         "overlapping, repeated, symlinked locations and files, __pycache__, duplicate ids, junk content) x all separators x "
         "recursive x sourceless, 40% of them configured through a real alembic.ini file. "
@@ -62,22 +59,14 @@ TECHNIQUE = ("Coq proof over a file tree given as data (induction over the neste
 LEVEL_TEXT = ("Machine-checked theorems for ALL well-formed file trees, location lists and settings: the model of "
               "from_config splitting / _list_py_dir / _from_filename / _load_revisions loads each expected revision file "
               "exactly once and nothing else, a source wins over compiled forms, overlapping / repeated / symlinked "
-              "locations do not change the result, duplicate ids are reported k-1 times; three classes where the real code "
-              "deviates or deviated: the two repaired ones now hold at full strength, the open one (.pyo) is a _refuted witness.  The model is compared exactly with the real ScriptDirectory on "
-              "materialised trees on every run.")
+              "locations do not change the result, duplicate ids are reported k-1 times.  The three deviations found earlier "
+              "(stem shadow, blank location, lone .pyo) are repaired in the code and all statements hold at full strength.  "
+              "The model is compared exactly with the real ScriptDirectory on materialised trees on every run.")
 LEVEL_NOTE = ("Trusted: Coq kernel+vm_compute, the hand-written model and the file-system / importlib / re assumptions listed in "
               "trusted_base (exercised but not proved by the correspondence), the Python harness.  Modules without a "
               "`revision` attribute, absolute or package-resource locations, chained or relative links are outside the model.")
 
-VERIF = os.path.dirname(os.path.dirname(os.path.dirname(os.path.abspath(__file__))))
-try:
-    _KNOWN = {f["id"] for f in json.load(open(os.path.join(VERIF, "known_findings.json"))).get("findings", [])
-              if f.get("property") == PROP}
-except Exception:
-    _KNOWN = set()
-F_PYO = "C19-pyo-assert"      # (C19-stem-shadow and C19-blank-location are repaired: a regression is a VIOLATION)
-if os.environ.get("C19_FINDINGS") == "all":      # development aid: also generate the finding class
-    _KNOWN = {F_PYO}
+# all three findings of this property (C19-stem-shadow, C19-blank-location, C19-pyo-assert) are repaired: a regression is a VIOLATION
 
 SEPS = ["none", "space", "newline", "os", ":", ";", "bad"]
 SEP_COQ = {"none": "SepNone", "space": "SepSpace", "newline": "SepNewline", "os": "SepOs", ":": "SepColon",
@@ -136,17 +125,6 @@ def all_dirs(tree, pre=()):
             yield from all_dirs(e[2], pre + (e[1],))
 
 
-def live_pyo(tree):
-    out = []
-    for d, es in all_dirs(tree):
-        names = {e[1] for e in es}
-        for e in es:
-            if e[0] == "f" and e[1].endswith(".pyo") and is_rev_name(True, e[1]) \
-                    and e[1][:-1] not in names and e[1][:-1] + "c" not in names:
-                out.append((d, e[1]))
-    return out
-
-
 def split_items(sep, locs):
     """what from_config makes of the string (generator only: to see the last component of each location)"""
     import re
@@ -188,29 +166,14 @@ def norm_items(sep, locs):
 
 def repair(h):
     """keep generated cases inside the modelled universe (no broken links; a non-recursive location is not named
-    ...__pycache__) and out of the finding class while it is not recorded (it would be a new violation)"""
-    tree = h["tree"]
-    for _ in range(6):
-        before = json.dumps(tree)
-        if h["sl"] and F_PYO not in _KNOWN:
-            for d, nm in live_pyo(tree):
-                dd = lookup(tree, list(d))
-                dd[2][:] = [e for e in dd[2] if e[1] != nm]
-        drop_broken_links(tree)
-        if json.dumps(tree) == before:
-            break
+    ...__pycache__)"""
+    drop_broken_links(h["tree"])
     if not h["rec"] and any(c and c[-1].endswith("__pycache__") for c in norm_items(h["sep"], h["locs"])):
         h["rec"] = True
     return h
 
 
-def in_finding_class(h):
-    return bool(h["sl"] and live_pyo(h["tree"]))
-
-
 def classify(h, out):
-    if h["sl"] and live_pyo(h["tree"]) and isinstance(out, dict) and out.get("err"):
-        return F_PYO
     return None
 
 
@@ -235,10 +198,7 @@ def exhaustive_single_dir():
                     else:
                         es.append(F(it, rid))
                         rid += 1
-                h = case("none", None, rec, sl, [D("sd", [D("versions", es)])])
-                if in_finding_class(h) and F_PYO not in _KNOWN:
-                    continue
-                yield h
+                yield case("none", None, rec, sl, [D("sd", [D("versions", es)])])
 
 
 LOC_STRINGS = ["v1", "v1 v2", "v1,v2", "v1, v2", "v1:v2", "v1;v2", "v1\nv2", "v1  v2", "v1 ,v2", "v1 , v2", " v1", "v1 ",
@@ -397,15 +357,8 @@ def rand_case(rnd):
     return repair(h)
 
 
-def finding_witnesses():
-    if F_PYO in _KNOWN:
-        yield case("none", None, False, True, [D("sd", [D("versions", [F("x.pyo", 1)])])])
-        yield case("none", None, True, True, [D("sd", [D("versions", [D("sub", [F("a.pyo", 1), F("b.py", 2)])])])])
-
-
 def generate(tier, seed):
     rnd = random.Random(seed * 7919 + 19)
-    yield from finding_witnesses()
     yield from exhaustive_single_dir()
     yield from exhaustive_loc_strings()
     n = 2500 if tier == "quick" else 40000
